@@ -424,8 +424,11 @@ func main() {
 		for i := 0; i < 100 && active() != 0; i++ {
 			time.Sleep(10 * time.Millisecond)
 		}
+		// a reply made by the proxy itself (no upstream marker) must not carry anything of an upstream answer: the scripted
+		// upstreams put the request token into the body of every answer, error answers included
+		foreign := o.Kind == "response" && o.Header.Get("X-Upstream") == "" && strings.Contains(o.Body, tok)
 		tr.Emit(vh.Ev{"ev": "cdone", "rid": rid, "kind": o.Kind, "status": o.Status, "extra": o.Extra,
-			"elapsed": o.ElapsedMs, "bound": globalMs + 700})
+			"elapsed": o.ElapsedMs, "bound": globalMs + 700, "foreign": foreign})
 		if hostsDown {
 			setHealth(c.Cluster, true)
 		}
